@@ -49,6 +49,7 @@ type FrameEnd struct {
 	waiting  int      // readers currently blocked in ReadMessage
 	reads    int      // completed ReadMessage calls
 	entered  int      // ReadMessage calls that found nothing and blocked (monotone)
+	readEnds int      // ReadMessage calls that returned an error
 	// outbound
 	peer      *FrameEnd
 	gate      bool
@@ -169,6 +170,23 @@ func (e *FrameEnd) WaitReaderIdle(d time.Duration) bool {
 	}
 }
 
+// WaitReadEnded waits until a ReadMessage call of this end has returned an error.
+func (e *FrameEnd) WaitReadEnded(d time.Duration) bool {
+	deadline := time.Now().Add(d)
+	for {
+		e.mu.Lock()
+		ok := e.readEnds > 0
+		e.mu.Unlock()
+		if ok {
+			return true
+		}
+		if time.Now().After(deadline) {
+			return false
+		}
+		time.Sleep(50 * time.Microsecond)
+	}
+}
+
 // WaitQueued waits until at least n frames have been written towards this end in total.
 func (e *FrameEnd) WaitQueued(n int, d time.Duration) bool {
 	deadline := time.Now().Add(d)
@@ -190,15 +208,18 @@ func (e *FrameEnd) ReadMessage(buf []byte) ([]byte, error) {
 	blocked := false
 	for {
 		if e.closed {
+			e.readEnds++
 			return nil, io.EOF
 		}
 		if e.readErr != nil {
 			if e.hardErr {
+				e.readEnds++
 				return nil, e.readErr
 			}
 			// data precedes the end of a TCP stream: frames still held are delivered first
 			e.released = len(e.queue)
 			if e.released == 0 {
+				e.readEnds++
 				return nil, e.readErr
 			}
 		}
